@@ -135,6 +135,17 @@ class Run:
             self.seed = int(os.environ.get('VERIF_SEED', '0'))
         except ValueError:
             self.seed = 0
+        self.replay_of = None
+        if self.replay:
+            # a replay re-runs the check with the seed and tier recorded in the replay file: every random choice derives from them,
+            # so the same cases (incl. the recorded failing one) are regenerated and judged against /repo's current tree
+            try:
+                self.replay_of = json.loads(Path(self.replay).read_text())
+                self.seed = int(self.replay_of.get('seed', self.seed))
+                self.tier = self.replay_of.get('tier', self.tier)
+            except Exception as ex:      # noqa: BLE001
+                print(f'cannot read replay file {self.replay}: {ex}')
+                sys.exit(2)
         self.t0 = time.time()
         self.thorough = self.tier == 'thorough'
         self.obligation_names = []
@@ -341,7 +352,8 @@ class Run:
         d.mkdir(parents=True, exist_ok=True)
         blob = json.dumps(payload, sort_keys=True, default=str)
         fn = d / (hashlib.sha1(blob.encode()).hexdigest()[:12] + '.json')
-        payload = dict(property=self.pid, kind=kind, replay_cmd=f'./bin/check {self.pid} --replay {fn}', **payload)
+        payload = dict(property=self.pid, kind=kind, seed=self.seed, tier=self.tier,
+                       replay_cmd=f'./bin/check {self.pid} --replay {fn}', **payload)
         fn.write_text(json.dumps(payload, indent=1, default=str))
         return fn
 
@@ -395,6 +407,10 @@ class Run:
         shutil.rmtree(self.work, ignore_errors=True)
         for l in lines:
             print(l)
+        if self.replay_of is not None:
+            want = self.replay_of.get('signature') or self.replay_of.get('what')
+            got = [v['signature'] for v in self.violations] + [b['what'] for b in self.broken]
+            print(f"REPLAY {'reproduced' if want in got else ('other-failure' if got else 'not-reproduced')}: {self.replay_of.get('what', '')[:160]}")
         print(f'[{self.pid}] tier={self.tier} seed={self.seed} obligations={len(self.obligation_names)} '
               f'evaluations={cov["evaluations"]} nontrivial={cov["distinct_nontrivial"]} breaks={len(self.broken)} '
               f'violations={nviol} wall={wall:.1f}s')
